@@ -282,8 +282,31 @@ ADDED = {
   'C01': "Also: a sub-object packed with omittable=True must not be counted by the length function; _wire_wildcards gating decided by evaluation per ethertype; pack() assembled from a list of pieces joined at the end is understood. Third batch: byte counts derived from `length`/`avail` contain buffer positions only as differences (R-UNITS); zero-padded strings use one total single-byte codec on both sides. Fourth batch: _packzs on samples; no message-level omittable=True; pack cache holds unconsumed input bytes; pack gating by evaluation of the struct.pack arguments.",
   'C07': "The dequeued function may be element 0 of the popped item or the first name of a tuple-unpacking pop. Third batch: ping() writes whatever the pinger's own state; synchronized() hands out a fresh or thread-local synchroniser. Fourth batch: pong reads once; creation of the call-later task under the lock after a None test made under the lock.",
 }
-for _k, _v in ADDED.items():
-  if _k in P: P[_k]['text'] = P[_k]['text'] + " " + _v
+# rules added in response to the fifth and sixth batches (DESIGN 9.15, 9.17)
+ADDED56 = {
+  'C01': "Fifth batch: default of nx_match's `omittable`; the vendor hook reads only what every vendor message has until the vendor is known. Sixth batch: a store to a lazily packed field resets the packed copy; class-level len() fallback catches what the classes used with it raise; pack gating per (ethertype, IP protocol).",
+  'C02': "Fifth batch: each message is dispatched through the connection's current handler table. Sixth batch: the cursor has advanced also on paths through an exception handler back to the loop head (exception edges); decoders never size a read by the length of the buffer they are handed; peek / consume / read of the IO worker evaluated on a sample buffer.",
+  'C03': "Fifth batch: the entry used for a frame comes from a lookup made for that frame; from_packet on boundary ethertypes. Sixth batch: is_exact / is_wildcarded evaluated on sample matches (complementary, partial prefixes count as wildcarded).",
+  'C04': "Fifth batch: effective_priority by evaluation. Sixth batch: results of helpers that return generator expressions are not used as containers; subsumption is reflexive (equality shortcut, or a prefix test that masks both sides).",
+  'C05': "Fifth batch: CallProxy hands back the handler's result; arguments passed on by name reach the parameter of that name. Sixth batch: removeListener evaluated on a sample table with the first id the generator hands out; dispatch loop recognised in entry-variable form.",
+  'C06': "Fifth batch: epoll masks follow the lists of the current call; exception containment of a sub-task's close(). Sixth batch: the wake-up primitive's rules and the hub's clear-before-pick-up order (shared with C07).",
+  'C07': "Sixth batch: every function handed over is run (a wake-up drains the whole queue, or one byte is read per function and ping() can neither skip nor swallow its write); the select hub clears the wake-up pipe before it picks up new registrations.",
+  'C08': "Fifth batch: hasComponent of a falsy registered component; mutable default arguments are not changed in place.",
+  'C09': "Fifth batch: the once-flag is set only on paths that raise ConnectionDown. Sixth batch: the handshake's port-status handler evaluated on sample buffers (an equal message is buffered too); the barrier attribute is derived from the code.",
+  'C10': "Fifth batch: a message handler never closes the connection's socket itself. Sixth batch: R-PROGRESS with exception edges; message decoders that size a read by `length - K` test the declared length (R-SIB); buffer-length-sized reads (shared with C02); error-handler results decided by evaluation.",
+  'C11': "Fifth batch: value-based forwarding rules (lookup result dominance, packet_out.data copy condition by evaluation).",
+  'C12': "Fifth batch: ethernet.__len__ measures pack(); packet-in length scenarios. Sixth batch: ofp_phy_port.set_config evaluated on a sample port and fed to _set_port_config_bit - only a PORT_DOWN change reaches the link-state block.",
+  'C13': "Fifth batch: OFPST_FLOW out_port filter; error data is the offending request only. Sixth batch: no request-keyed lookup in a module-level table on the way to an error reply.",
+  'C14': "Fifth batch: LLC control field re-emitted as consumed; surviving stores. Sixth batch: skip word per mode by evaluation and a zero checksum field in the summed header on emission; set_payload writes only self.next / payload.prev; payload presence is not decided by truth value.",
+  'C15': "Fifth batch: DHCP option parts fit their length octet; logging shortcuts do not format caller text. Sixth batch: dispatch through tables of classes, decorator registries and mixin constructors is resolved (ICMPv6 message classes, NDP options, MPTCP options, IPv6 extension headers); KeyError of wire-keyed table lookups; E13 printing / serialising methods use only names and attributes that exist, E14 dispatch-table classes can be re-serialised, E15 constructors initialise the base state.",
+  'C17': "Fifth batch: only the reassembly writes the list of collected parts. Sixth batch: the former name of a modified port is not found (evaluated on a sample view); early port-status buffering by evaluation.",
+  'C18': "Sixth batch: the buffer id a packet-in announces originates from the allocator; mirrored sample pool for the use-and-free routine; truncation / total_len decided by evaluation when the statement is not recognised.",
+  'C19': "Fifth batch: the handler that forgets remembered flood bits is subscribed in every mode; the recurring timer's callback never returns False. Sixth batch: every link event recomputes the tree; per-dpid discovery state is withdrawn only when the connection that went down is the registered one.",
+  'C20': "Sixth batch: the closed flag is set before the close handlers run; facts independent of local variable names.",
+}
+for _d in (ADDED, ADDED56):
+  for _k, _v in _d.items():
+    if _k in P: P[_k]['text'] = P[_k]['text'] + " " + _v
 
 NOT_APPLICABLE = {
   'C16': "Address types: the statement is about numeric/textual agreement over the whole address domain (byte order, mask arithmetic, CIDR parsing, zero-run compression, round trips, rejection of malformed text) - results of computations on runtime values; no shape-level rule is a necessary and telling condition for it (DESIGN.md section 7).",
